@@ -870,7 +870,8 @@ def spec_reader_tie(run, ctx, env, lines, c_out, rnd, tally):
             cuts.append(h[:2 * k])
     byts = [hexes[i] for i in idx] + cuts
     m_lines = ['SREAD %s' % (h or '-') for h in byts] + ['RECS ' + lines[i].split(' ', 1)[1] for i in idx] + \
-              ['WFCANON ' + lines[i].split(' ', 1)[1] for i in idx]
+              ['WFCANON ' + lines[i].split(' ', 1)[1] for i in idx] + \
+              ['SPARSE %s %s' % (lines[i].split()[2], hexes[i] or '-') for i in idx]
     rc, m_out, m_err = run_driver(ctx.model, env.text() + '\n'.join(m_lines) + '\n', 'c03s')
     r_out, r_err = run_ref(ctx, env, ['RAW %s' % (h or '-') for h in byts], 'c03w')
     if len(m_out) != len(m_lines) or len(r_out) != len(byts):
@@ -902,6 +903,16 @@ def spec_reader_tie(run, ctx, env, lines, c_out, rnd, tally):
                  % (env.text(), lines[i], hexes[i], m_out[nb + k][:3000], m_out[k][:3000], r_out[k][:3000]))
         else:
             tally['records_equal_reader_equal_libprotobuf'] += 1
+        # SAME MEANING under the specification-level reading (Impl/SpecParse.v): what protobuf-c packed is read back as the
+        # original message (C03_specification_reads_packed_bytes_as_the_original_message, here on the library's bytes)
+        sp = m_out[nb + 2 * ni + k]
+        if sp == 'U NONE':
+            tally['specification_does_not_read_packed_bytes'] += 1       # unknown fields holding a varint that overflows 64 bits
+        elif sp != 'U ' + lines[i].split(' ', 1)[1]:
+            viol(run, 'disagreement', 'the specification-level reading of the bytes protobuf-c packed is not the original message\n%s\n--- schema + case\n%s%s\n--- bytes\n%s\n--- specification reads\n%s\n'
+                 % (first_diff(sp, 'U ' + lines[i].split(' ', 1)[1]), env.text(), lines[i], hexes[i], sp[:3000]))
+        else:
+            tally['specification_reads_packed_bytes_as_original'] += 1
 
 
 def check_C03(tier, seed):
@@ -915,7 +926,7 @@ def check_C03(tier, seed):
     per_env = 40 if tier == 'quick' else 120
     tally = {'pack_bytes_identical': 0, 'reference_reads_back_original': 0, 'cases': 0, 'spec_reader_inputs': 0,
              'spec_reader_agrees_with_libprotobuf': 0, 'spec_reader_both_reject': 0, 'spec_reader_groups_skipped': 0,
-             'noncanonical_cases': 0, 'noncanonical_pack_bytes_identical': 0, 'whole_message_theorem_domain': 0, 'outside_whole_message_theorem': 0, 'records_equal_reader_equal_libprotobuf': 0}
+             'noncanonical_cases': 0, 'noncanonical_pack_bytes_identical': 0, 'specification_reads_packed_bytes_as_original': 0, 'specification_does_not_read_packed_bytes': 0, 'whole_message_theorem_domain': 0, 'outside_whole_message_theorem': 0, 'records_equal_reader_equal_libprotobuf': 0}
     for env in envs:
         st.schemas += 1
         lines, msgs = stream_pack(rnd, env, st, per_env, canon=True)
